@@ -9,6 +9,7 @@ import (
 	"fmt"
 	"io"
 	"sort"
+	"strconv"
 	"strings"
 	"syscall"
 
@@ -537,55 +538,61 @@ const KnownUnpinnedRead = "C06-unpinned-read"
 // KnownBeginVsCollector is the id of the known finding "Begin draws its number before it registers".
 const KnownBeginVsCollector = "C08-begin-vs-collector"
 
-// beginVsCollector returns the indices of the reads of snapshot transactions whose Begin overlapped a
-// collector run that removed content: the collector takes its horizon from the REGISTERED
-// transactions when it starts, Begin registers only after it drew its number, so such a run may
-// remove versions the new snapshot needs (whenever the removal itself happens afterwards).
-// A collector run = the hook event "cleaner.deleteold" of a goroutine up to its last removal event.
+// beginVsCollector returns the indices of the reads of snapshot transactions for which the collector
+// used a horizon above their own sequence number while they were beginning or open. A correct
+// collector never does: versions a live snapshot needs lie below its number. fs_db can, in two ways
+// (both the same defect - Begin draws its number and only then registers, and the registry hands the
+// collector the transaction that registered first, not the one with the smallest number): the collector
+// looks at the registry between a Begin's draw and its registration (and then draws a fresh, larger
+// horizon), or two Begins register in the opposite order of their numbers.
+// Observed through the hook trace: "tx.registered <id> <seq>" inside the Begin's interval gives the
+// transaction's number, "cleaner.horizon <seq>" the horizon of every collector run and the moment it was
+// fixed. A transaction whose Begin was called only AFTER the horizon had been fixed is never excused:
+// its number is necessarily larger than any horizon a correct collector could have drawn before.
 func beginVsCollector(run *Run, ops []HOp) []int {
-	type crun struct{ g, start, end int }
-	var runs []crun
-	for i, e := range run.Events {
-		if e.Kind != "cleaner.deleteold" {
-			continue
-		}
-		r := crun{g: e.G, start: e.T, end: -1}
-		for _, f := range run.Events[i+1:] {
-			if f.G != e.G {
-				continue
-			}
-			if f.Kind == "cleaner.deleteold" {
-				break
-			}
-			if f.Kind == "os.remove" || f.Kind == "badger.delete" {
-				r.end = f.T
+	type hz struct {
+		t int
+		h uint64
+	}
+	var horizons []hz
+	for _, e := range run.Events {
+		if e.Kind == "cleaner.horizon" {
+			if h, err := strconv.ParseUint(strings.TrimSpace(e.Arg), 10, 64); err == nil {
+				horizons = append(horizons, hz{e.T, h})
 			}
 		}
-		if r.end >= 0 {
-			runs = append(runs, r)
-		}
+	}
+	if len(horizons) == 0 {
+		return nil
 	}
 	var out []int
 	for _, b := range ops {
 		if b.K != "begin" || b.Lvl < 2 {
 			continue
 		}
-		hit := false
-		for _, r := range runs {
-			if r.g != b.G && r.start <= b.Ret && r.end >= b.Call {
-				hit = true // the run took its horizon while this transaction was not registered yet
+		seq, ok := uint64(0), false
+		for _, e := range run.Events {
+			if e.Kind == "tx.registered" && e.G == b.G && e.T >= b.Call && e.T <= b.Ret {
+				if f := strings.Fields(e.Arg); len(f) == 2 {
+					if v, err := strconv.ParseUint(f[1], 10, 64); err == nil {
+						seq, ok = v, true
+					}
+				}
 			}
 		}
-		// second manifestation: two Begins overlap, the one with the smaller number registers later;
-		// the collector takes the first REGISTERED transaction for the oldest one
-		for _, b2 := range ops {
-			if b2.K != "begin" || b2.Slot == b.Slot || b2.Call > b.Ret || b2.Ret < b.Call {
-				continue
+		if !ok {
+			continue
+		}
+		end := int(^uint(0) >> 1)
+		for _, o := range ops {
+			if o.Slot == b.Slot && (o.K == "commit" || o.K == "rollback") && o.Call > b.Ret && o.Call < end {
+				end = o.Call
 			}
-			for _, r := range runs {
-				if r.end >= b.Call {
-					hit = true
-				}
+		}
+		hit := false
+		for _, h := range horizons {
+			if h.t >= b.Call && h.t <= end && h.h > seq {
+				hit = true
 			}
 		}
 		if !hit {
